@@ -8,10 +8,13 @@ from .source import AnalysisError, SourceProvider
 
 
 class FunctionInfo:
-    def __init__(self, module, name, node, cls=None, parent=None):
+    def __init__(self, module, name, node, cls=None, parent=None, index=None):
         self.module = module
         self.name = name
-        self.node = node
+        self.raw_node = node        # the syntax tree as written
+        self._flat = None
+        self._flattening = False
+        self._index = index
         self.cls = cls
         self.parent = parent
         if parent is not None:
@@ -21,6 +24,27 @@ class FunctionInfo:
         else:
             self.qualname = "%s.%s" % (module, name)
         self.local_imports = None  # filled lazily
+
+    @property
+    def node(self):
+        """the syntax tree with extracted private helpers and nested defs substituted (ppsa/flatten.py); identical to the
+        tree as written when the function calls none"""
+        if self._flat is not None:
+            return self._flat
+        if self._index is None or self._flattening:
+            return self.raw_node
+        self._flattening = True
+        try:
+            from .flatten import flatten_function
+            self._flat = flatten_function(self._index, self)
+        finally:
+            self._flattening = False
+        return self._flat
+
+    @node.setter
+    def node(self, value):
+        self.raw_node = value
+        self._flat = value
 
     @property
     def short(self):
@@ -138,12 +162,12 @@ class Index:
 
     def _index_stmt(self, mi, st):
         if isinstance(st, (ast.FunctionDef, ast.AsyncFunctionDef)):
-            mi.functions[st.name] = FunctionInfo(mi.name, st.name, st)
+            mi.functions[st.name] = FunctionInfo(mi.name, st.name, st, index=self)
         elif isinstance(st, ast.ClassDef):
             ci = ClassInfo(mi.name, st.name, st)
             for b in st.body:
                 if isinstance(b, (ast.FunctionDef, ast.AsyncFunctionDef)):
-                    ci.methods[b.name] = FunctionInfo(mi.name, b.name, b, cls=ci)
+                    ci.methods[b.name] = FunctionInfo(mi.name, b.name, b, cls=ci, index=self)
                 elif isinstance(b, ast.Assign):
                     for t in b.targets:
                         if isinstance(t, ast.Name):
@@ -216,7 +240,7 @@ class Index:
     def func_imports(self, fi):
         if fi.local_imports is None:
             imports, star = {}, []
-            for n in ast.walk(fi.node):
+            for n in ast.walk(fi.raw_node):
                 if isinstance(n, (ast.Import, ast.ImportFrom)):
                     _collect_imports([n], fi.module, self.module(fi.module).is_pkg, imports, star)
             fi.local_imports = imports
